@@ -491,6 +491,14 @@ func reifyMergeValue(
 
 	baseType := chaseTypePointers(old.Type())
 
+	// A struct or array stored by value in an interface{} field can not be
+	// modified in place: merge into a copy, which the caller stores back.
+	if (old.Kind() == reflect.Struct || old.Kind() == reflect.Array) && !old.CanAddr() {
+		tmp := reflect.New(old.Type()).Elem()
+		tmp.Set(old)
+		old, oldValue = tmp, tmp
+	}
+
 	if tConfig.ConvertibleTo(baseType) {
 		sub, err := val.toConfig(opts.opts)
 		if err != nil {
